@@ -48,6 +48,12 @@ void TruncatedExponentialDiscreteDistribution::fireParameterChanged(const Parame
 
 void TruncatedExponentialDiscreteDistribution::restrictToConstraint(const ConstraintInterface& c)
 {
+  // Refuse before anything is modified: the truncation point must stay inside the restricted domain.
+  std::unique_ptr<ConstraintInterface> inter(*intMinMax_ & c);
+  if (!inter)
+    throw Exception("TruncatedExponentialDiscreteDistribution::restrictToConstraint: the constraint is not an interval");
+  if (!inter->isCorrect(tp_))
+    throw ConstraintException("TruncatedExponentialDiscreteDistribution::restrictToConstraint: truncation point outside the restricted domain", &getParameter_("tp"), tp_);
   AbstractDiscreteDistribution::restrictToConstraint(c);
   getParameter_("tp").setConstraint(intMinMax_);
 }
